@@ -173,6 +173,8 @@ structure Client where
   wslots : Nat → Option Conn := fun _ => none
   rslots : Option (Nat → List Conn) := none
   next : Nat := 0
+  /-- ghost: slots at which `wslots` may change value (used only to print the table quickly) -/
+  marks : List Nat := []
 
 def cget (a : Bytes) (m : List (Bytes × Conn × Bool)) : Option (Conn × Bool) := (m.find? (·.1 = a)).map (·.2)
 def cset (a : Bytes) (v : Conn × Bool) (m : List (Bytes × Conn × Bool)) : List (Bytes × Conn × Bool) :=
@@ -242,6 +244,9 @@ inductive Out (α : Type) where
   | panic
   deriving Repr
 
+def rangeMarks (gs : Groups) : List Nat :=
+  gs.flatMap fun kg => kg.2.slots.flatMap fun r => if r.1 < 0 then [] else [r.1.toNat, r.2.toNat + 1]
+
 /-- `_refresh` when every node answers the topology request with `topo` -/
 def refresh (o : Opt) (topo : Msg) (ro : Nat → Nat → Nat) (c : Client) : Out Client :=
   if topo.typ = 95 then .fail .nilr
@@ -251,7 +256,7 @@ def refresh (o : Opt) (topo : Msg) (ro : Nat → Nat → Nat) (c : Client) : Out
     | .ok gs =>
       let (m, nx) := refreshConns o c gs
       match buildTables o m ro (gs.map (·.2)) with
-      | .ok (w, r) => .ok { conns := m, wslots := w, rslots := r, next := nx }
+      | .ok (w, r) => .ok { conns := m, wslots := w, rslots := r, next := nx, marks := rangeMarks gs }
       | _ => .panic
     | _ => .panic
 
@@ -299,7 +304,7 @@ def pick (o : Opt) (topo : Msg) (ro : Nat → Nat → Nat) (c : Client) (cmd : C
 def redirectOrNew (c : Client) (addr : Bytes) (prev : Conn) (slot : Nat) (isMove : Bool) : Conn × Client :=
   let fresh : Conn := { addr := addr, serial := c.next }
   let patched : Client :=
-    { c with conns := cset addr (fresh, false) c.conns, next := c.next + 1,
+    { c with conns := cset addr (fresh, false) c.conns, next := c.next + 1, marks := c.marks ++ [slot, slot + 1],
              wslots := if isMove ∧ slot ≠ initSlot then fun i => if i = slot then some fresh else c.wslots i else c.wslots }
   match cget addr c.conns with
   | some (cc, _) => if prev ≠ cc then (cc, c) else (fresh, patched)
